@@ -9,10 +9,13 @@ SEED = "/verif/seeded"
 def sh(cmd, **kw): return subprocess.run(cmd, shell=True, text=True, stdout=subprocess.PIPE, stderr=subprocess.STDOUT, **kw)
 def meta(id):
     p = os.path.join(SEED, id, "meta.json"); return p, (json.load(open(p)) if os.path.exists(p) else {})
-def cmd_import(prop):
-    src = "/tmp/seed_%s/out" % prop
+def cmd_import(prop, rnd=1):
+    """round 1: /tmp/seed_<Cxx>/out/{1,2} -> <Cxx>-1, -2; round r: /tmp/seed<r>_<Cxx>/out/{1,2} -> <Cxx>-(2r-1), -(2r)"""
+    src = ("/tmp/seed_%s/out" % prop) if rnd == 1 else ("/tmp/seed%d_%s/out" % (rnd, prop))
     for k in sorted(os.listdir(src)):
-        d = os.path.join(SEED, "%s-%s" % (prop, k)); os.makedirs(d, exist_ok=True)
+        if not os.path.exists(os.path.join(src, k, "patch.diff")): continue
+        n = int(k) + 2 * (rnd - 1) if k.isdigit() else k
+        d = os.path.join(SEED, "%s-%s" % (prop, n)); os.makedirs(d, exist_ok=True)
         for f in os.listdir(os.path.join(src, k)):
             sp = os.path.join(src, k, f)
             if os.path.isdir(sp):
@@ -97,6 +100,6 @@ def cmd_table():
 if __name__ == "__main__":
     c = sys.argv[1]
     if c == "table": cmd_table(); sys.exit(0)
-    if c == "import": cmd_import(sys.argv[2])
+    if c == "import": cmd_import(sys.argv[2], int(sys.argv[3]) if len(sys.argv) > 3 else 1)
     elif c == "verify": cmd_verify(sys.argv[2:])
     elif c == "run": sys.exit(cmd_run(sys.argv[2], sys.argv[3:]))
